@@ -2865,8 +2865,11 @@ transmit_error_response_len (struct MHD_Connection *connection,
               status_code,
               message);
 #endif
-    /* can't even send a reply, at least close the connection */
-    connection->state = MHD_CONNECTION_CLOSED;
+    /* can't even send a reply, at least close the connection
+       (and notify the application if it has seen the request) */
+    CONNECTION_CLOSE_ERROR (connection,
+                            _ ("Closing connection " \
+                               "(failed to create error response)."));
     free (header_name);
     free (header_value);
     return;
